@@ -209,6 +209,8 @@ def mk_order(W, alpha):
 def same(a, b, tol=1e-7):
     if a is None or b is None:
         return a is None and b is None
+    if isinstance(b, (list, tuple)) and not isinstance(a, np.ndarray) and any(isinstance(x, (np.ndarray, list, tuple)) for x in b):
+        return isinstance(a, (list, tuple)) and len(a) == len(b) and all(same(x, y, tol) for x, y in zip(a, b))
     if isinstance(b, str) or isinstance(a, str):
         return a == b
     if isinstance(b, bool) or isinstance(a, (bool, np.bool_)):
@@ -279,8 +281,11 @@ class T:
         st.roots["args"] = [a for a in args if not isz(a)]
         self.ctx.touch(fref)
         kwargs = dict(kwargs or {})
+        entry = None
+        if isinstance(self_val, SObj):
+            entry = {k: (list(v) if isinstance(v, list) else v) for k, v in self_val.fields.items()}
         self.last_call = {"relpath": relpath, "qualname": qualname, "args": list(args), "kwargs": kwargs,
-                          "self": self_val}
+                          "self": self_val, "self_entry": entry}
         with self.ctx:
             ex.depth = 0
             cls = ClassRef(fref.module, fref.cls) if fref.cls is not None else None
@@ -461,9 +466,30 @@ class T:
         for k, d in self.inputs.items():
             body.append("%s = %s" % (k, d.src(me)))
 
+        pre_lines = []
+
+        def objsrc(o, fields):
+            """Rebuild a repository object with object.__new__ and its entry-time fields."""
+            if not hasattr(o.cls, "module"):
+                raise Unsupported("stub object not concretisable")
+            var = "_obj%d" % o.oid
+            modname = o.cls.module.relpath[:-3].replace("/", ".")
+            pre_lines.append("import %s as _m%d" % (modname, o.oid))
+            pre_lines.append("%s = object.__new__(_m%d.%s)" % (var, o.oid, o.cls.name))
+            for k, v in fields.items():
+                pre_lines.append("%s.%s = %s" % (var, k, argsrc(v)))
+            return var
+
         def argsrc(a):
             if id(a) in by_sym:
                 return by_sym[id(a)][0]
+            if isinstance(a, SObj):
+                ent = call.get("self_entry") if a is call.get("self") else None
+                return objsrc(a, ent if ent is not None else a.fields)
+            if isinstance(a, list):
+                return "[" + ", ".join(argsrc(x) for x in a) + "]"
+            if isinstance(a, tuple):
+                return "(" + ", ".join(argsrc(x) for x in a) + ("," if len(a) == 1 else "") + ")"
             if a is None or isinstance(a, (bool, int, str)):
                 return repr(a)
             if isinstance(a, Fraction):
@@ -482,8 +508,10 @@ class T:
         if "classmethod" in fref.decorator_names():
             cargs = cargs[1:]
         args = ", ".join([argsrc(a) for a in cargs] + ["%s=%s" % (k, argsrc(v)) for k, v in call["kwargs"].items()])
+        selfvar = None
         if call["self"] is not None:
-            target = "%s.%s" % (argsrc(call["self"]), q.split(".")[-1])
+            selfvar = argsrc(call["self"])
+            target = "%s.%s" % (selfvar, q.split(".")[-1])
         elif "." in q:
             target = "_mod.%s" % q
         else:
@@ -500,6 +528,7 @@ class T:
                 if ok:
                     pred = p
                     break
+        body.extend(pre_lines)
         body.append("try:")
         body.append("    _res = %s(%s)" % (target, args))
         body.append("    _out = ('return', _res)")
@@ -516,6 +545,21 @@ class T:
         else:
             body.append("_pred = ('return', %s)" % self._val_src(me, pred.value))
             body.append("_ok = _out[0] == 'return' and same(_out[1], _pred[1])")
+            if selfvar is not None and isinstance(call["self"], SObj):
+                # the engine's predicted FINAL STATE of the object must also be what the real code produced
+                from .symexec import find_obj
+                fo = find_obj(pred.st, call["self"].oid)
+                checked = 0
+                if fo is not None:
+                    for k, v in fo.fields.items():
+                        try:
+                            src = self._val_src(me, v)
+                        except Unsupported:
+                            continue
+                        body.append("_ok = _ok and same(getattr(%s, %r, None), %s)" % (selfvar, k, src))
+                        checked += 1
+                if pred.value is None and checked == 0:
+                    body.append("_ok = False  # nothing observable to compare")
         body.append("print('REAL-OUTCOME', _out); print('ENGINE-PREDICTED', _pred)")
         body.append("if _ok:")
         body.append("    print('REPLAY-CONFIRMED obligation=%s (real code behaves as in the counter-model, where the clause is false)' % OBLIGATION)")
@@ -531,8 +575,10 @@ class T:
             return _num_src(me, v)
         if isinstance(v, SArr):
             return _arr_src(me, v)
-        if isinstance(v, (tuple, list)):
+        if isinstance(v, tuple):
             return "(" + ", ".join(self._val_src(me, x) for x in v) + ("," if len(v) == 1 else "") + ")"
+        if isinstance(v, list):
+            return "[" + ", ".join(self._val_src(me, x) for x in v) + "]"
         raise Unsupported("result not concretisable")
 
 
